@@ -13,6 +13,15 @@ CHECKS = {
     "C03": ("property-based testing: generated programs executed on an RV32IM reference interpreter; executed transfers vs CFG edges, structural edge invariants",
             "Generated-input search over arbitrary programs in the stated domain x several initial states: inverse successor/predecessor sets, every executed transfer is an edge, every edge is legitimate, exits have no successors, executed code is never reported unreachable. Exploration.",
             "Trusts the reference machine and the statement/node correspondence (by order, cross-checked by offsets).", "5/C03"),
+    "C02": ("property-based testing: differential against a reference least-fixed-point solver of the documented equations + dynamic def-use check on an RV32IM reference interpreter",
+            "Generated-input search over three program generators. Static: live sets, argument/return sets and 'unused value' warnings must equal the least solution of the documented equations computed by an independent solver with architectural read/write sets. Dynamic: every register read on executed traces must be live from its definition along the executed path. Exploration.",
+            "Trusts the reference solver's transcription of the documented equations, the architectural read/write table and the reference machine.", "5/C02"),
+    "C04": ("property-based testing: conforming-by-construction generator + dynamic convention monitor; oracle = empty diagnostic list",
+            "Generated-input search over programs that follow the convention by construction and are confirmed by a dynamic monitor on three executions, rendered with every surface freedom: no diagnostic of any kind may be produced. Exploration.",
+            "'Conforming' is encoded in the generator and the monitor (trusted base), not taken from the analyzer.", "5/C04"),
+    "C05": ("property-based testing with fault injection: 16 violation classes injected into clean base programs, confirmed by the dynamic monitor where observable",
+            "Generated-input search over base program x violation class x site/register: a diagnostic of the class's kind must be located in the class's acceptance set. Exploration; evidence tabulates cases per class.",
+            "Trusts the clean generator's metadata (sites) and the convention monitor.", "5/C05"),
     "C07": ("property-based testing (proptest choice sequences): coverage oracle + deletion metamorphic relation over generated files with injected malformed lines",
             "Generated-input search: thousands of generated one-statement-per-line files with malformed lines of 14 kinds at random positions (LF/CRLF, with/without final newline, include split); every content line must be covered by a node or an error on it, and all other lines must parse as in the file with the malformed lines deleted. Exploration, not proof: absence of a violation is only established for the cases generated.",
             "Trusts the harness's own line arithmetic (recomputed from raw offsets) and the generator's list of malformed-line kinds.", "5/C07"),
